@@ -15,7 +15,9 @@ from .fakepool import patch_pools
 RECIPE = '''
 def recipe(field_indexes, box_array):
     """twice_first"""
-    return 2.0 * box_array[..., 0]
+    first = box_array[..., 0]
+    first *= 2.0          # in place on the array the tool hands to the recipe: must never reach the input files
+    return first
 '''
 
 
@@ -230,6 +232,14 @@ def run_frame_scenario(p, wd):
                 if tree_digest(i) != digests[i] or any(inside(q, i) for q in changed + removed):
                     fails.append({"what": "tool created, modified or deleted something inside its input", "call": call,
                                   "detail": str([os.path.relpath(q, work) for q in changed + removed if inside(q, i)][:4])})
+            # audit of the write-class calls: nothing inside an input may even be OPENED for writing
+            for site in instr.sites:
+                if site.startswith("open "):
+                    fpath = site[5:].rsplit(" ", 1)[0]
+                    ap = fpath if os.path.isabs(fpath) else os.path.join(work, fpath)
+                    if any(inside(ap, i) for i in inputs):
+                        fails.append({"what": "tool opened a file inside its input for writing", "call": call, "detail": site[:160]})
+                        break
             stray = []
             for q in changed:
                 if any(inside(q, i) for i in inputs) or q.endswith("user_recipe.py") or "__pycache__" in q:
